@@ -166,7 +166,7 @@ def deepen(ob, cfile, wd, timeout, mem):
     derived from the current code rather than from loop numbers."""
     spec = ob.get('unwind') or {}
     start = spec.get('start', 2); cap = spec.get('max', 16)
-    rc, o, t, _ = run(cbmc_base(ob, cfile) + ['--show-loops', '--drop-unused-functions'], timeout=300)
+    rc, o, t, _ = run(cbmc_base(ob, cfile) + ['--show-loops', '--drop-unused-functions'], timeout=max(300, ob.get('timeout', 600)))
     loops = re.findall(r'^Loop ([^\s:]+):', o, re.M)
     if rc != 0 and not loops:
         raise Inconclusive('cbmc front end rejected the generated C: ' + o[-2000:])
@@ -188,7 +188,7 @@ def deepen(ob, cfile, wd, timeout, mem):
         rounds += 1
         uw = ['%s:%d' % (k, v + 1) for k, v in bounds.items()]
         cmd = cbmc_base(ob, cfile) + ['--unwinding-assertions', '--no-standard-checks', '--no-assertions', '--drop-unused-functions',
-                                     '--no-malloc-may-fail', '--verbosity', '4'] + BACKENDS[(ob.get('backends') or ['minisat'])[0]] + ['--unwindset', ','.join(uw)]
+                                     '--no-malloc-may-fail', '--verbosity', '4'] + BACKENDS[(ob.get('backends') or ['minisat'])[0]] + uw_args(uw)
         rc, o, t, _ = run(cmd, timeout=timeout, mem_gb=mem)
         secs += t
         if rc == -999: raise Inconclusive('bound search timed out after %d rounds' % rounds)
@@ -208,7 +208,7 @@ def deepen(ob, cfile, wd, timeout, mem):
 
 def unwindset(ob, cfile, wd):
     spec = ob.get('unwind') or {}
-    rc, o, t, _ = run(cbmc_base(ob, cfile) + ['--show-loops', '--drop-unused-functions'], timeout=300)
+    rc, o, t, _ = run(cbmc_base(ob, cfile) + ['--show-loops', '--drop-unused-functions'], timeout=max(300, ob.get('timeout', 600)))
     loops = re.findall(r'^Loop ([^\s:]+):', o, re.M)
     if rc != 0 and not loops:
         raise Inconclusive('cbmc front end rejected the generated C: ' + o[-2000:])
@@ -232,9 +232,22 @@ def unwindset(ob, cfile, wd):
 
 PROP_RE = re.compile(r'^\[([^\]]+)\] (?:line \d+ )?(.*): (SUCCESS|FAILURE|UNKNOWN|ERROR)$', re.M)
 
+def uw_args(uw):
+    """--unwindset for every loop; when that would exceed the kernel's argument size limit, a global
+    --unwind for the most common bound plus explicit entries for the loops that differ"""
+    if not uw: return []
+    s = ','.join(uw)
+    if len(s) < 100000: return ['--unwindset', s]
+    from collections import Counter
+    common = Counter(x.rsplit(':', 1)[1] for x in uw).most_common(1)[0][0]
+    rest = [x for x in uw if x.rsplit(':', 1)[1] != common]
+    out = ['--unwind', common]
+    if rest: out += ['--unwindset', ','.join(rest)]
+    return out
+
 def cbmc_run(ob, cfile, wd, tag, backend, uw, extra, timeout, mem, group=None):
     cmd = cbmc_base(ob, cfile) + CBMC_FLAGS + BACKENDS[backend] + extra
-    if uw: cmd += ['--unwindset', ','.join(uw)]
+    cmd += uw_args(uw)
     outp = os.path.join(wd, '%s.%s.out' % (tag, backend))
     rc, o, secs, rss = run(cmd, timeout=timeout, mem_gb=mem, stdout_path=outp, group=group, env=dict(os.environ, TMPDIR=wd))
     res = {'backend': backend, 'seconds': round(secs, 2), 'rc': rc, 'out': outp}
@@ -392,7 +405,7 @@ def do_obligation(pid, ob, tier, scratch, fids, known):
             traces = {}
             for pname, desc in [f for f in r['failed'] if 'unwinding assertion' not in f[1]][:2]:
                 cmd = cbmc_base(ob, cfile) + CBMC_FLAGS + BACKENDS[r['backend']] + [x for x in ob.get('cbmc', []) if x != '--slice-formula'] + ['--trace', '--property', pname]
-                if uw: cmd += ['--unwindset', ','.join(uw)]
+                cmd += uw_args(uw)
                 outp = os.path.join(wd, 'unsliced.%s.out' % re.sub(r'\W', '_', pname))
                 rc2, o2, s2, _ = run(cmd, timeout=timeout, mem_gb=mem, stdout_path=outp, env=dict(os.environ, TMPDIR=wd))
                 traces.update(parse_traces(o2)); rec['queries'] += 1
@@ -473,7 +486,7 @@ def witness_run(ob, wd, uw, timeout, mem):
         best = None
         bes = ob.get('witness_backends') or ob.get('backends') or ['minisat']
         cmd = cbmc_base(ob, cfile) + cmd_extra + BACKENDS[bes[0]] + list(ob.get('cbmc', []))
-        if uw: cmd += ['--unwindset', ','.join(uw)]
+        cmd += uw_args(uw)
         rc, o, secs, rss = run(cmd, timeout=timeout, mem_gb=mem, stdout_path=os.path.join(wd, 'wit.out'))
         if 'VERIFICATION FAILED' in o: st = 'reached'
         elif 'VERIFICATION SUCCESSFUL' in o: st = 'unreachable'
@@ -501,7 +514,7 @@ def match_known(known, pid, obname, desc):
     return None
 
 def save_replay(pid, obname, ob, vals, pname, desc, native_out):
-    d = os.path.join(ROOT, 'replays', pid); os.makedirs(d, exist_ok=True)
+    d = os.path.join(ROOT if REPO == '/repo' else '/var/tmp/verif_other_tree', 'replays', pid); os.makedirs(d, exist_ok=True)
     p = os.path.join(d, obname + '.json')
     json.dump({'property': pid, 'obligation': obname, 'harness': ob['harness'], 'entry': ob['entry'],
                'failed_cbmc_property': pname, 'description': desc,
@@ -610,8 +623,11 @@ def write_evidence(pid, P, tier, seed, recs, wall, rcode):
         'violations': sum(1 for r in recs if r['verdict'] == 'violated'),
         'exit_code': rcode,
     }
-    os.makedirs(os.path.join(ROOT, 'evidence'), exist_ok=True)
-    json.dump(ev, open(os.path.join(ROOT, 'evidence', pid + '.json'), 'w'), indent=1, default=str)
+    # runs against another tree (VERIF_REPO=<scratch worktree>, used to try seeded changes) must not
+    # overwrite the evidence of /repo
+    evdir = os.path.join(ROOT, 'evidence') if REPO == '/repo' else '/var/tmp/verif_other_tree/evidence'
+    os.makedirs(evdir, exist_ok=True)
+    json.dump(ev, open(os.path.join(evdir, pid + '.json'), 'w'), indent=1, default=str)
 
 if __name__ == '__main__':
     main()
